@@ -61,3 +61,29 @@ Definition verdict_epoch (ptol ctol : float) (c : epoch_case) : Z * Z :=
 (* tau_rand_int sequences: n draws from a state *)
 Fixpoint draws (n : nat) (st : rng3) : list Z :=
   match n with O => [] | S n' => let '(st', r) := tau_rand_int st in r :: draws n' st' end.
+
+(* generic optimiser with the Euclidean output metric: same case record as the Euclidean kernel *)
+From UV Require Import M_sgdg.
+Definition verdict_gepoch (ptol ctol : float) (c : epoch_case) : Z * Z :=
+  let s0 := mkSt FNum (mkEmb FNum (c_H c) (c_T c) (c_shared c)) (c_next c) (c_nneg c) (c_rng c) in
+  let s1 := gepoch FNum (euclidean_grad FNum) (c_a c) (c_b c) (c_gamma c) (c_alpha c) (c_move c) (c_nv c) (c_n c) (map to_edge (c_edges c)) s0 in
+  let dH := maxdiff2 (eH FNum (s_emb FNum s1)) (o_H c) in
+  let dT := if c_shared c then 0 else maxdiff2 (eT FNum (s_emb FNum s1)) (o_T c) in
+  let dev := f_to_Z (fmax dH dT * 1e9) in
+  let code :=
+    if negb (all_rng (s_rng FNum s1) (o_rng c)) then 1%Z else
+    if negb (maxdiff (s_next FNum s1) (o_next c) <=? ctol) then 2%Z else
+    if negb (maxdiff (s_nneg FNum s1) (o_nneg c) <=? ctol) then 3%Z else
+    if negb (dH <=? ptol) then 4%Z else
+    if negb (dT <=? ptol) then 5%Z else (-1)%Z in
+  (code, dev).
+
+(* parametric replication: weights (float32 values) -> kept flags and repeat counts *)
+Definition verdict_replication (c : float * list float * list bool * list Z) : Z :=
+  let '(ne, ws, kf, reps) := c in
+  let wmax := fold_left (fun m w => if m <? w then w else m) ws 0 in
+  let thr := f_round32 (wmax / ne) in
+  let km := map (fun w => negb (w <? thr)) ws in
+  if negb (forallb (fun p => Bool.eqb (fst p) (snd p)) (combine km kf)) then 1%Z else
+  let rm := map (fun w => f_to_Z (f_round32 (ne * w))) (map fst (filter snd (combine ws km))) in
+  if negb (forallb (fun p => (fst p =? snd p)%Z) (combine rm reps)) || negb (Nat.eqb (length rm) (length reps)) then 2%Z else (-1)%Z.
